@@ -742,6 +742,89 @@ def c17_check(x, cx, bad):
     return tuple(sorted((i, v[1]) for i, v in cx['res'].items()))
 
 
+# ---------------------------------------------------------------- C03: look-ups on one chain state from two threads
+
+C03_PLANS = {
+    # per thread: the blocks (depth on the chain f, f/s, f/s/a, f/s/a/e; 'side' = the sibling f/s/b) whose balances it asks for
+    'deep-vs-shallow': [(3,), (1,)],
+    'deep-vs-middle-then-shallow': [(4,), (2, 1)],
+    'deep-vs-side-branch': [(3,), ('side',)],
+    'same-block-twice': [(3,), (3,)],
+}
+
+
+def c03_world():
+    if 'c03' in _W:
+        return _W['c03']
+    from skepticoin import balances, coinstate
+    ledger.setup()
+    uni = ledger.tx_universe('easy')
+    # scheduling points: every line of the look-up methods themselves (the helpers that apply one block / one transaction to
+    # the maps they are given run atomically: they own no state)
+    _W['c03'] = dict(uni=uni, trace={balances.__file__: ('line-only', frozenset(['public_key_balances_by_hash', '__getitem__',
+                                                                                  'chain_at_hash', '__init__']))})
+    return _W['c03']
+
+
+def c03_make(name):
+    from skepticoin.coinstate import CoinState
+    W = c03_world()
+    uni = W['uni']
+    plan = C03_PLANS[name]
+    chain = [('f',), ('f', 's'), ('f', 's', 'a'), ('f', 's', 'a', 'e')]
+    side = ('f', 's', 'b')
+    nodes = [uni.get(p) for p in chain] + [uni.get(side)]
+    if any(n is None for n in nodes):
+        raise seams.HarnessError("C03 thread scenario: universe lacks a block")
+    cs = CoinState.empty().add_block_no_validation(uni.root.block)
+    for n in nodes:
+        cs = cs.add_block_no_validation(n.block)       # fresh state: nothing looked up yet
+    res = {}
+
+    def mk(i, asks):
+        def run():
+            got = []
+            for a in asks:
+                n = nodes[-1] if a == 'side' else nodes[a - 1]
+                bal = cs.public_key_balances_by_hash[n.bid]
+                got.append((n, {pk.public_key: (b.value, frozenset((r.hash, r.index) for r in b.output_references), len(b.output_references))
+                                for pk, b in bal.items()}))
+            res[i] = got
+        return run
+    return [mk(i, asks) for i, asks in enumerate(plan)], dict(res=res, cs=cs, nodes=nodes)
+
+
+def c03_check(x, cx, bad):
+    for i, o in enumerate(x.outcome):
+        if o is not None and o[0] == 'exc':
+            bad.append(('balance-raises', "thread %d: balance query raises %r" % (i, o[1])))
+    if bad:
+        return None
+
+    def cmp(node, got, who):
+        rb = refmodel.balances(node.utxo)
+        g = {k: v for k, v in got.items() if v[0] or v[1]}
+        want = {k: (v[0], frozenset(v[1]), len(v[1])) for k, v in rb.items()}
+        if g != want:
+            bad.append(('balance-under-threads', "%s: the balances reported at block %s are not the replay of that block's chain "
+                        "(%d keys reported, %d in the reference; another look-up was running on the same chain state)" % (
+                            who, '/'.join(node.path), len(g), len(want))))
+    for i, got in cx['res'].items():
+        for node, b in got:
+            cmp(node, b, "thread %d" % i)
+    # ... and what the chain state answers afterwards (whatever the look-ups left behind in it)
+    if not bad:
+        for node in cx['nodes']:
+            try:
+                bal = cx['cs'].public_key_balances_by_hash[node.bid]
+            except Exception as e:
+                bad.append(('balance-raises', "afterwards: the balance query for block %s raises %r" % ('/'.join(node.path), e)))
+                break
+            cmp(node, {pk.public_key: (b.value, frozenset((r.hash, r.index) for r in b.output_references), len(b.output_references))
+                       for pk, b in bal.items()}, "afterwards")
+    return tuple(sorted((i, len(v)) for i, v in cx['res'].items()))
+
+
 def node_level_rejections(names):
     """(sequential, no schedule exploration) every rule-breaking candidate block of the C01 alphabet is delivered by a
     peer to a real node whose chain state came from start-up alone / from start-up plus a block its own miner found:
@@ -802,6 +885,7 @@ FAMILIES = {
     'MN': (MN_PLANS, mn_world, mn_make, mn_check),
     'MNc': (MN_PLANS, mn_world_coarse, mn_make, mn_check),
     'C17': (C17_PLANS, c17_world, c17_make, c17_check),
+    'C03': (C03_PLANS, c03_world, c03_make, c03_check),
 }
 
 
